@@ -204,6 +204,11 @@ def manifest_note(prop):
     return PROPS[prop]["assumptions"]
 
 
+# rangeScan / Prefix build slices over node memory with unsafe: repeat the quick workload under checkptr + GC stress in thorough
+for _p in ("C03", "C04", "C02"):
+    PROPS[_p]["modes"] = lambda tier: ["plain", "cover", "gcstress"] if tier == "thorough" else ["plain"]
+    PROPS[_p]["quick_tier_modes"] = ("cover", "gcstress")
+
 PROPS["C19"] = dict(
     title="generated trees are what the generator produces",
     modes=lambda t: [], level="translation_validation",
